@@ -144,7 +144,7 @@ def run(ctx):
     ctx.assumptions += [
         "file system = byte string changed by the fwrite/ftruncate calls libcfitsio issues (stdio buffering below fwrite and power-loss reordering below write(2) are not modelled)",
         "cfitsio's disk driver never writes beyond the current end of file (measured per run: ops_creating_holes must be absent); a zeroed data block cannot be detected by any reader of a format without checksums (Z cases are compared model vs. implementation only)",
-        "the model reader may accept a state the implementation rejects (a partially present last header block: cfitsio announces the HDU once the first byte of its END card is there and then fails on the data); never the other way round",
+        "the model reader may accept (as equal) a state the implementation rejects: a partially present last header block (cfitsio announces the HDU once the first byte of its END card is there and then fails on the data) or missing zero padding after an image smaller than three blocks (cfitsio reads those through whole-block buffers, larger ones directly); never the other way round",
         "C08_prefix_safe_partial takes readCoreBytes (encode t) = t.core as a hypothesis; it is evaluated for every generated table (rt=1) and proved for one instance",
         "realloc failures under cfitsio's memory driver are not injected (cfitsio 4.2 dereferences a null pointer in ffppx before photospline sees a status)",
         "an fflush error is not propagated by cfitsio (ffflsh ignores the driver's flush status); with glibc the data are written by the following fclose, whose status is checked after the repair",
